@@ -25,9 +25,14 @@ def has_returns(body: list) -> bool:
 
 
 def is_generator(body: list) -> bool:
+    # `yield` inside of a lambda makes a generator of the lambda, not of the function
+    in_lambda: set[int] = set()
     for expr in traverse(body=body, skip_try=False):
+        if isinstance(expr, TOKENS.LAMBDA):
+            in_lambda.update(id(sub) for sub in traverse(body=[expr.body], skip_try=False))
         if isinstance(expr, TOKENS.YIELD + TOKENS.YIELD_FROM):
-            return True
+            if id(expr) not in in_lambda:
+                return True
     return False
 
 
